@@ -11,6 +11,7 @@
   non-deferred locks held; absence of panics for single-threaded use is C01, for order ≥ 4).
 -/
 import Gobptree.Proofs.ConcReach
+import Gobptree.Proofs.CSFinal
 
 namespace Gobptree.Conc
 open Gobptree
@@ -73,13 +74,26 @@ example (P : Params K) (tree : Tree K V) (progs : List (List (COp K V))) :
     Reachable (Config.init P tree progs) (Config.init P tree progs) ∧ (Config.init P tree progs).dead = false :=
   ⟨.refl, rfl⟩
 
-/-- FULL statement of the remaining half of C09 ("afterwards every operation on any key
-    completes"), kept as a definition: it needs termination of every operation under a
-    fair schedule, i.e. deadlock freedom (C06). Not proved. -/
-def C09_then_completes_statement : Prop :=
-  ∀ (P : Params Nat) (tree : Tree Nat Nat) (progs : List (List (COp Nat Nat))) (c : Config Nat Nat),
-    Reachable (Config.init P tree progs) c → c.dead = false → c.unfinished = true →
-    c.enabledSet ≠ []
+/-- **C09 (no panic, so the bookkeeping is unconditional).** For disciplined clients on a
+    tree satisfying the structural invariant the hypothesis `dead = false` of the theorems
+    above always holds: every thread holds exactly its cursor's leaf plus the locks of its
+    park position, in every reachable configuration. -/
+theorem C09_held_by_position_always (P : Params K) (tree : Tree K V) (progs : List (List (COp K V)))
+    (ht : TreeOk none tree) (ho : tree.order = P.order) (hp : PadOk P) (hd : Disciplined progs)
+    (c : Config K V) (hr : Reachable (Config.init P tree progs) c) :
+    ∀ th ∈ c.threads, List.Perm th.held (cursorLocks th.cursor ++ parkHeld th.park) :=
+  C09_held_by_position P tree progs c hr (reachable_cinv P tree progs ht ho hp hd c hr).alive
+
+/-- **C09 (afterwards every operation on any key completes).** Whenever some thread still
+    has work to do and no thread has ended with an open cursor — in particular after any
+    number of operations have returned, whatever paths they took — some thread can take a
+    step: no lock left behind can block the rest (this is deadlock freedom, C06). -/
+theorem C09_then_completes (P : Params K) (tree : Tree K V) (progs : List (List (COp K V)))
+    (ht : TreeOk none tree) (ho : tree.order = P.order) (hp : PadOk P) (hd : Disciplined progs)
+    (c : Config K V) (hr : Reachable (Config.init P tree progs) c)
+    (hfin : FinishedClean c) (hu : c.unfinished = true) : c.enabledSet ≠ [] :=
+  let hinv := reachable_cinv P tree progs ht ho hp hd c hr
+  ranked_not_deadlocked (posRank c.tree) c hinv.s.owner (sinv_ranked c hinv.s) hfin hu
 
 end Gobptree.Conc
 
@@ -88,3 +102,5 @@ end Gobptree.Conc
 #print axioms Gobptree.Conc.C09_nothing_after_close
 #print axioms Gobptree.Conc.C09_cursor_one_leaf
 #print axioms Gobptree.Conc.C09_between_calls
+#print axioms Gobptree.Conc.C09_held_by_position_always
+#print axioms Gobptree.Conc.C09_then_completes
